@@ -245,3 +245,101 @@ Example fixed_renders_unorderable :
                    [EvTotal (1%nat, [2%nat]) 1; EvTotal (1%nat, [1%nat]) 1; EvRender 0 0] = Ok (o, outs) /\
                  map (fun sr => map r_scope (snd sr)) (hd [] outs) = [[Some [1%nat]; Some [2%nat]; None]].
 Proof. eexists; eexists; split; reflexivity. Qed.
+
+(** * the HTML / IPython output lists every scope of the rendered sections with its counts *)
+Section ShowsCounts.
+  Variable vty : nat -> nat.
+  Variable vlt : nat -> nat -> option bool.
+  Variable vrepr : nat -> nat.
+
+  Definition row_shows (sc : scope) (st : sstate) (r : row) : Prop :=
+    r_scope r = Some sc /\ r_ps r = progress_string st.
+
+  Lemma html_rows_show l rows it :
+    html_rows l = Ok rows -> In it l -> exists r, In r rows /\ row_shows (fst it) (snd it) r.
+  Proof.
+    revert rows. induction l as [|x l IH]; intros rows H Hin; [destruct Hin|]. cbn [html_rows] in H.
+    destruct (html_row (Some (fst x)) (snd x)) as [r0|] eqn:E0; cbn [bind] in H; [|discriminate].
+    destruct (html_rows l) as [rs|] eqn:E1; cbn [bind] in H; [|discriminate]. inversion H; subst rows.
+    destruct Hin as [<-|Hin].
+    - exists r0. split; [now left|]. unfold html_row in E0.
+      destruct (pct _ _); cbn [bind] in E0; [|discriminate]. destruct (pct _ _); cbn [bind] in E0; [|discriminate].
+      destruct (pct _ _); cbn [bind] in E0; [|discriminate]. inversion E0; subst. split; reflexivity.
+    - destruct (IH rs eq_refl Hin) as (r & A & B). exists r. split; [now right|assumption].
+  Qed.
+
+  Lemma ipy_rows_show l rows it :
+    ipy_rows l = Ok rows -> In it l -> exists r, In r rows /\ row_shows (fst it) (snd it) r.
+  Proof.
+    revert rows. induction l as [|x l IH]; intros rows H Hin; [destruct Hin|]. cbn [ipy_rows] in H.
+    destruct (ipy_row x) as [r0|] eqn:E0; cbn [bind] in H; [|discriminate].
+    destruct (ipy_rows l) as [rs|] eqn:E1; cbn [bind] in H; [|discriminate]. inversion H; subst rows.
+    destruct Hin as [<-|Hin].
+    - exists r0. split; [now left|]. unfold ipy_row in E0. destruct (total (snd x) <? 0); [discriminate|].
+      inversion E0; subst. split; reflexivity.
+    - destruct (IH rs eq_refl Hin) as (r & A & B). exists r. split; [now right|assumption].
+  Qed.
+
+  Lemma render_html_shows secs m out s sc st :
+    render_html vty vlt vrepr true secs m = Ok out -> In s secs -> In ((s, sc), st) m ->
+    exists rows r, In (s, rows) out /\ In r rows /\ row_shows sc st r.
+  Proof.
+    revert out. induction secs as [|s0 rest IH]; intros out H Hs Hin; [destruct Hs|]. cbn [render_html] in H.
+    assert (Hit : In (sc, st) (sec_items s m)).
+    { unfold sec_items. apply in_map_iff. exists ((s, sc), st). split; [reflexivity|]. apply filter_In. split; [assumption|].
+      cbn. apply Nat.eqb_refl. }
+    destruct (Nat.eq_dec s s0) as [->|Hne].
+    - destruct (sec_items s0 m) as [|it items] eqn:Ei; [destruct Hit|].
+      destruct (html_section vty vlt vrepr true (it :: items)) as [rows|] eqn:Es; cbn [bind] in H; [|discriminate].
+      destruct (render_html vty vlt vrepr true rest m) as [r|]; cbn [bind] in H; [|discriminate]. inversion H; subst out.
+      unfold html_section in Es. destruct (sorted_scope_items vty vlt vrepr true (it :: items)) as [l|] eqn:El; cbn [bind] in Es; [|discriminate].
+      destruct (html_rows l) as [rows0|] eqn:Er; cbn [bind] in Es; [|discriminate].
+      pose proof (sorted_perm vty vlt vrepr true _ _ El) as Hp.
+      destruct (html_rows_show l rows0 (sc, st) Er (Permutation_in _ Hp Hit)) as (r0 & A & B).
+      exists rows, r0. split; [now left|]. split; [|exact B].
+      destruct (1 <? length (it :: items))%nat.
+      + destruct (html_row None _); cbn [bind] in Es; [|discriminate]. inversion Es; subst. apply in_or_app. now left.
+      + inversion Es; subst. assumption.
+    - assert (Hr : In s rest) by (destruct Hs; [congruence|assumption]).
+      destruct (sec_items s0 m) as [|it items].
+      + destruct (IH out H Hr Hin) as (rows & r & A & B & C). eauto.
+      + destruct (html_section _ _ _ _ _); cbn [bind] in H; [|discriminate].
+        destruct (render_html vty vlt vrepr true rest m) as [o1|] eqn:E1; cbn [bind] in H; [|discriminate]. inversion H; subst out.
+        destruct (IH o1 eq_refl Hr Hin) as (rows & r & A & B & C). exists rows, r. split; [now right|tauto].
+  Qed.
+
+  Lemma render_ipy_shows secs m out s sc st :
+    render_ipy vty vlt vrepr true secs m = Ok out -> In s secs -> In ((s, sc), st) m ->
+    exists rows r, In (s, rows) out /\ In r rows /\ row_shows sc st r.
+  Proof.
+    revert out. induction secs as [|s0 rest IH]; intros out H Hs Hin; [destruct Hs|]. cbn [render_ipy] in H.
+    assert (Hit : In (sc, st) (sec_items s m)).
+    { unfold sec_items. apply in_map_iff. exists ((s, sc), st). split; [reflexivity|]. apply filter_In. split; [assumption|].
+      cbn. apply Nat.eqb_refl. }
+    destruct (Nat.eq_dec s s0) as [->|Hne].
+    - destruct (sec_items s0 m) as [|it items] eqn:Ei; [destruct Hit|].
+      destruct (sorted_scope_items vty vlt vrepr true (it :: items)) as [l|] eqn:El; cbn [bind] in H; [|discriminate].
+      destruct (ipy_rows l) as [rows0|] eqn:Er; cbn [bind] in H; [|discriminate].
+      destruct (render_ipy vty vlt vrepr true rest m) as [r|]; cbn [bind] in H; [|discriminate]. inversion H; subst out.
+      pose proof (sorted_perm vty vlt vrepr true _ _ El) as Hp.
+      destruct (ipy_rows_show l rows0 (sc, st) Er (Permutation_in _ Hp Hit)) as (r0 & A & B).
+      exists rows0, r0. split; [now left|]. split; assumption.
+    - assert (Hr : In s rest) by (destruct Hs; [congruence|assumption]).
+      destruct (sec_items s0 m) as [|it items].
+      + destruct (IH out H Hr Hin) as (rows & r & A & B & C). eauto.
+      + destruct (sorted_scope_items _ _ _ _ _); cbn [bind] in H; [|discriminate].
+        destruct (ipy_rows _); cbn [bind] in H; [|discriminate].
+        destruct (render_ipy vty vlt vrepr true rest m) as [o1|] eqn:E1; cbn [bind] in H; [|discriminate]. inversion H; subst out.
+        destruct (IH o1 eq_refl Hr Hin) as (rows & r & A & B & C). exists rows, r. split; [now right|tauto].
+  Qed.
+
+  (** the rendering of a state lists every (section, scope) of the displayed sections with its counts *)
+  Lemma render_pure_shows kd m out s sc st :
+    render_pure vty vlt vrepr kd m = Ok out -> In s SECTIONS -> In ((s, sc), st) m ->
+    exists rows r, In (s, rows) out /\ In r rows /\ r_scope r = Some sc /\ r_ps r = progress_string st.
+  Proof.
+    destruct kd; cbn [render_pure]; [discriminate| |]; intros H Hs Hin.
+    - destruct (render_html_shows _ _ _ _ _ _ H Hs Hin) as (rows & r & A & B & C & D). eauto 6.
+    - destruct (render_ipy_shows _ _ _ _ _ _ H Hs Hin) as (rows & r & A & B & C & D). eauto 6.
+  Qed.
+End ShowsCounts.
